@@ -220,6 +220,11 @@ impl Report {
                 input.push('\n');
             }
         }
+        if let Ok(path) = std::env::var("VERIF_DUMP_MODEL_INPUT") {
+            // debugging aid: the lines sent to the driver and what the implementation answered
+            let _ = std::fs::write(&path, &input);
+            let _ = std::fs::write(format!("{}.impl", path), self.model_cases.iter().flat_map(|mc| std::iter::once("ok".to_string()).chain(mc.impl_out.iter().cloned())).collect::<Vec<_>>().join("\n"));
+        }
         let mut child = Command::new(driver)
             .stdin(Stdio::piped())
             .stdout(Stdio::piped())
